@@ -204,8 +204,10 @@ def cargo_build(bins, release=False, features=(), timeout=3000):
             cmd.append("--release")
         for b in bins:
             cmd += ["--bin", b]
-        if features:
-            cmd += ["--features", ",".join(features)]
+        # always build with the hooks feature: one feature set for every check avoids rebuilding the
+        # engine whenever two checks alternate (harness_dir() drops what a scratch worktree lacks)
+        features = tuple(sorted(set(features) | {"hooks"}))
+        cmd += ["--features", ",".join(features)]
         rc, o, e = sh(cmd, cwd=h, timeout=timeout)
         if rc != 0 and "Cargo.lock" in e:
             sh(["cp", lock_src, lock_dst])
